@@ -49,13 +49,16 @@ Proof. unfold padd. cbn. rewrite app_length. cbn. lia. Qed.
 Lemma pvalid_step s t o : Rsim s t -> pvalid t -> pvalid (fst (p_step t o)).
 Proof.
   intros R Hv. pose proof (Rsim_lookup_lt s t) as Hlt.
-  assert (Hfile : forall i (k : phandle -> bytes -> option Z -> pfs * pout),
+  assert (Hfile : forall i (neg : bool) (k : phandle -> bytes -> option Z -> pfs * pout),
     (forall h d pm, nth_error (phandles t) i = Some h -> pvalid (fst (k h d pm))) ->
     pvalid (fst (match nth_error (phandles t) i with
-                 | Some h => match pinode t (pino h) with Some (IFile d pm) => k h d pm | _ => (t, PFail COther) end
+                 | Some h => match pinode t (pino h) with
+                             | Some (IFile d pm) => k h d pm
+                             | _ => if negb neg && pclosed h then (t, PFail CClosed) else (t, PFail COther)
+                             end
                  | None => (t, PNoSlot) end))).
-  { intros i k Hk. destruct (nth_error (phandles t) i) as [h|] eqn:Hh; [|exact Hv].
-    destruct (pinode t (pino h)) as [[pm|d pm]|]; try exact Hv. now apply Hk. }
+  { intros i neg k Hk. destruct (nth_error (phandles t) i) as [h|] eqn:Hh; [|exact Hv].
+    destruct (pinode t (pino h)) as [[pm|d pm]|]; try (destruct (negb neg && pclosed h); exact Hv). now apply Hk. }
   destruct o; cbn [p_step].
   - (* Create *) destruct (plookup t (normalize_path p)) as [i|] eqn:Hl.
     + destruct (pnode_at t (normalize_path p)) as [[pm|d pm]|]; try exact Hv.
